@@ -48,6 +48,16 @@ def extract_smaller_path(repo):
         must_be_iri = True
     else:
         raise ExtractError("unrecognised predicate checks at the head of step 2 in %s: %s" % (REL, pre[:300]))
+    # step 2.1: one reference per OCCURRENCE of a blank node in the quad (the reading the model and the
+    # driver's `x.reading` statistic assume); any other body must be re-read by a human
+    m3 = re.search(r"for component in iter_spog\(quad\.spog\(\)\) \{(.*?)\n    \}\n    // Step 3", src, re.S)
+    if not m3:
+        raise ExtractError("step 2 component loop not found in %s" % REL)
+    body2 = re.sub(r'"[^"]*"', '""', re.sub(r"\s+", "", re.sub(r"//[^\n]*", "", m3.group(1))))
+    per_occurrence = ('ifcomponent.is_triple()||component.is_variable(){returnErr(C14nError::Unsupported("".to_string(),));}'
+                      'ifletSome(bnid)=component.bnode_id(){state.b2q.entry(Rc::from(bnid.as_str())).or_default().push(quad);}}')
+    if body2 != per_occurrence:
+        raise ExtractError("step 2.1 (filing quads under blank nodes) changed in %s: %s" % (REL, body2[:300]))
     out = [HEADER, "namespace SophiaModel.Gen\n",
            "/-- `true`: `smaller_path` compares lengths first (the shipped code); `false`: it is the skip rule of\n"
            "RDFC-1.0 4.8.3 steps 5.4.4.3 / 5.4.5.5 (`path1.len() <= path2.len() && path1 < path2`) -/\n",
@@ -55,6 +65,8 @@ def extract_smaller_path(repo):
            "/-- `true`: step 2 of `relabel_with` rejects every non-IRI predicate with `Unsupported` (after the\n"
            "blank-predicate test); `false`: only blank node predicates are rejected there (the shipped code) -/\n",
            "def predicateMustBeIri : Bool := %s\n" % ("true" if must_be_iri else "false"),
+           "/-- step 2.1 files a quad under a blank node once per OCCURRENCE of the node in the quad (text-checked) -/\n",
+           "def refsPerOccurrence : Bool := true\n",
            "end SophiaModel.Gen\n"]
     return "".join(out), {"length_first": length_first, "predicate_must_be_iri": must_be_iri}
 
